@@ -52,6 +52,12 @@ static void ev_build(void) {
 	for (int v = 0; v < 4; v++) { d[0] = 0; d[1] = 8; d[2] = (uint8_t) v; ev_add(0, MSG_BM_MULTIPLE, d, 3, "multiple master: %s%s", MN[v], ""); }
 	for (int v = 0; v < 2; v++) { d[0] = 0; d[1] = 8; d[2] = (uint8_t) v; ev_add(1, MSG_BM_MULTIPLE, d, 3, "multiple oc1: seg4 %s%s", v ? "occ" : "free", ""); }
 	{ uint8_t z = 0; ev_add(-1, 0, &z, 0, "bidib_send_sys_reset (detectors answer)%s%s", "", ""); ev_add(-1, 1, &z, 0, "bidib_send_sys_reset (detectors silent)%s%s", "", ""); }
+	/* messages and commands that are NOT occupancy reports: "after every processed message" also binds them — nothing but the
+	 * segment data may decide presence, position and orientation (board -2: an API call, type = which) */
+	{ uint8_t m0[9] = {T1L, T1H, 3, 0, 0, 0, 0, 0, 0}; ev_add(0, MSG_CS_DRIVE_MANUAL, m0, 9, "drive-manual train1 released (active=0)%s%s", "", "");
+	  uint8_t m1[9] = {T1L, T1H, 3, 3, 0x85, 0x10, 0, 0, 0}; ev_add(0, MSG_CS_DRIVE_MANUAL, m1, 9, "drive-manual train1 speed 5 forwards%s%s", "", "");
+	  uint8_t c0[3] = {0, 1, 0}; ev_add(0, MSG_BM_CONFIDENCE, c0, 3, "confidence seg1 void%s%s", "", "");
+	  uint8_t z = 0; ev_add(-2, 0, &z, 0, "bidib_send_cs_drive(train2, active=0)%s%s", "", ""); ev_add(-2, 1, &z, 0, "bidib_set_train_speed(train2, -3)%s%s", "", ""); }
 	for (int s = 0; s < 3; s++) for (int l = 0; l < NLIST; l++) { d[0] = SEG[s].num; memcpy(d + 1, LIST[l].e, (size_t) (2 * LIST[l].n)); ev_add(SEG[s].board, MSG_BM_ADDRESS, d, 1 + 2 * LIST[l].n, "address %s %s", SEG[s].id, LIST[l].name); }
 }
 /* two further events are not uplink messages: bidib_send_sys_reset with detectors that answer the occupancy query of the
@@ -148,7 +154,11 @@ static void hist_child(const void *job, size_t n) {
 	long checks = 0;
 	if (check_coupling("after start-up") == 0) for (int i = 0; i < len; i++) {
 		const ev_t *e = &EV[ev[i]]; char what[160]; snprintf(what, sizeof what, "event %d: %s", i, e->name);
-		if (e->board < 0) { silent_detectors = e->type; SB.on_msg = det_hook; bidib_send_sys_reset(0); hx_quiesce(); vs_sleep_us(3500000); hx_quiesce(); bidib_flush(); hx_quiesce(); drain(); silent_detectors = 0; SB.on_msg = NULL; }
+		if (e->board == -2) {
+			if (e->type == 0) { t_bidib_node_address a = {0, 0, 0}; t_bidib_cs_drive_mod dp; memset(&dp, 0, sizeof dp); dp.dcc_address.addrl = T2L; dp.dcc_address.addrh = T2H; dp.dcc_format = 2; dp.active = 0; bidib_send_cs_drive(a, dp, 0); }
+			else bidib_set_train_speed("train2", -3, "master");
+			bidib_flush(); hx_quiesce(); drain();
+		} else if (e->board < 0) { silent_detectors = e->type; SB.on_msg = det_hook; bidib_send_sys_reset(0); hx_quiesce(); vs_sleep_us(3500000); hx_quiesce(); bidib_flush(); hx_quiesce(); drain(); silent_detectors = 0; SB.on_msg = NULL; }
 		else { sb_send(M.b[e->board].sbnode, e->type, e->d, e->dl); vs_point(); hx_quiesce(); drain(); }
 		int bad = (e->board < 0 ? 0 : check_freed(e, what)) + check_coupling(what); checks++;
 		if (bad) { if (i < len - 1) res_infra("violation before the last event"); break; }
